@@ -372,7 +372,8 @@ def run_property(pid, tier, seed, replay=None, only_sub=None, scale=1.0):
     # replay tier: committed corpus first
     corpus_dir = os.path.join(VERIF, 'corpus', pid)
     corpus_n = 0
-    if os.path.isdir(corpus_dir):
+    # (VERIF_NO_CORPUS=1: measure what the generators find on their own - used by the sensitivity tools only)
+    if os.path.isdir(corpus_dir) and not os.environ.get('VERIF_NO_CORPUS'):
         for fn in sorted(os.listdir(corpus_dir)):
             if not fn.endswith('.json'):
                 continue
